@@ -197,6 +197,7 @@ func c39PubBlob(pub []byte) []byte {
 // uninterpreted function in the engine); the returned key is the private part; a check mismatch
 // on an unencrypted file is a format error (not IncorrectPasswordError); no panic.
 func Verif_C39_Inner() {
+	c40On = true // this author's engine stubs (see zz_verif_stubs.go)
 	check1, check2 := verifrt.U32(), verifrt.U32()
 	keytype := KeyAlgoED25519
 	if verifrt.Choose(0, 3) == 0 {
@@ -250,6 +251,7 @@ func Verif_C39_Inner() {
 // section); parseOpenSSHPrivateKey does not compare it with the private key for any key type
 // (OpenSSH does, sshkey_equal_public) — recorded in notes/C39.md as outside the claim.
 func Verif_C39_PublicConsistent() {
+	c40On = true // this author's engine stubs (see zz_verif_stubs.go)
 	pubOuter := verifrt.Bytes(32)
 	pubInner := verifrt.Bytes(32)
 	priv := verifrt.Bytes(64)
@@ -278,6 +280,7 @@ func Verif_C39_PublicConsistent() {
 // magic is intact, cipher = kdf = none, no kdf options, NumKeys == 1; a file naming a cipher or
 // kdf yields *PassphraseMissingError carrying the container's public key; no panic.
 func Verif_C39_Outer() {
+	c40On = true // this author's engine stubs (see zz_verif_stubs.go)
 	magic := []byte(privateKeyAuthMagic)
 	mi := verifrt.Choose(0, len(magic)-1)
 	orig := magic[mi]
@@ -324,6 +327,7 @@ func Verif_C39_Outer() {
 // parameters but check1 != check2 (what a wrong passphrase produces) yields exactly
 // x509.IncorrectPasswordError; no panic.
 func Verif_C39_Encrypted() {
+	c40On = true // this author's engine stubs (see zz_verif_stubs.go)
 	ci := verifrt.Choose(0, 3)
 	cipherName := []string{"aes256-ctr", "aes256-cbc", "none", "aes128-ctr"}[ci]
 	kdf := []string{"bcrypt", "none", "scrypt"}[verifrt.Choose(0, 2)]
@@ -380,6 +384,7 @@ func Verif_C39_Encrypted() {
 // section that is a multiple of the block size (8 / 16), and without passphrase the encrypted
 // file yields PassphraseMissingError with the key's public half. PEM armor is outside.
 func Verif_C39_RoundTrip() {
+	c40On = true // this author's engine stubs (see zz_verif_stubs.go)
 	if verifrt.Symbolic() {
 		rand.Reader = c39Reader{}
 	}
